@@ -189,6 +189,6 @@ def main(tier):
     if lvl == "deep":
         js = common.widen(js, by=(1, 2))
     base = list(js)
-    js += common.staged(base, stride=5 if tier == "quick" else 2, kinds=("solve", "init"))
+    js += common.staged(base, stride=5 if tier == "quick" else 2, kinds=("solve", "init", "older"))
     js += common.early(base, stride=6 if tier == "quick" else 3)
     return common.run_space_check("C04", tier, js, RULE, ASSUME, budget_s=480 if tier == "quick" else 3000)
